@@ -212,6 +212,7 @@ MODELS = [
     (r'HeaderMap::reserve$|HeaderMap::<.*>::reserve$', lambda ex, a, c: Tup([])),
     (r'HeaderMap::len$|HeaderMap::<.*>::len$', lambda ex, a, c: len(dv(a[0]).entries)),
     (r'Request::<.*>::headers$', m_headers),
+    (r'Request::<.*>::into_body$', lambda ex, a, c: dv(a[0]).body),
     (r'HeaderMap::get::|HeaderMap::<.*>::get::', m_hm_get),
     (r'HeaderValue::to_str$', m_hv_to_str),
     (r'HeaderValue::as_bytes$', m_hv_as_bytes),
